@@ -12,10 +12,16 @@
 //! ops.txt / impl.txt (same line numbering):
 //!   `case <progs>`            | `ok at=<p0>,<p1>,…`
 //!   `step <tid> <point>`      | `<c> <m> <n> st=<status> at=<next point|done>[ ret <kind> <id> <res>]`
-//!   `rx run|stop|kill`        | `handled=<ids|-> exit=<reason|-> st=<status> self=<id:res,…|->`
+//!   `rx run|stop|kill`        | `handled=<ids|-> exit=<reason|-> st=<status> self=<id:res,…|->[ acc=<0|1>]`
+//!
+//! Round 4: a send can go through `ActorCell::send_serialized` (`z`, cluster build: the serialized
+//! variant of `BoxedMessage`, own admission check) or through a `DerivedActorRef` (`v…`, converter
+//! closure -> `ActorRef::send_message`); threads can also call `stop(reason)` (`t<n>`, `t` = no
+//! reason) and `kill()` (`k`) on the same actor: one schedule point `port.stop` / `port.kill`, then
+//! the mutex-protected one-shot port operation; the result is logged as `cret stop <n|-> ok|refused`.
 //!   `end <signature>`         | `word=<c> <m> <n> st=<status> handled=<ids|-> sup=<events> alive=<0|1>`
 //!
-//!   `stress <i> k= m= drain= stop=` | `sends=<id:res:t0:t1,…> handled=<ids> drain=<t0:t1|-> sup=<events> exited=<0|1>`
+//!   `stress <i> k= m= drain= stop=` | `sends=<id:res:t0:t1,…> handled=<ids> drain=<t0:t1|-> sup=<events> exited=<0|1> calls=<stop:n:ok|refused,kill:-:…|->`
 //!                               (free-running threads; t = tickets of one global counter; oracle only)
 //!
 //! usage: admission --seed S --cases N --out DIR [--enum-cap K] [--enum 0|1] [--stress N]
@@ -27,9 +33,9 @@ use std::sync::{Arc, Mutex};
 use std::time::Duration;
 
 use hutil::{Args, Log, Rng, Stats};
-use ractor::message::{BoxedDowncastErr, BoxedMessage};
+use ractor::message::{BoxedDowncastErr, BoxedMessage, SerializedMessage};
 use ractor::verif::{self, ThreadCtl, ThreadPhase};
-use ractor::{Actor, ActorCell, ActorProcessingErr, ActorRef, Message, MessagingErr, SupervisionEvent};
+use ractor::{Actor, ActorCell, ActorProcessingErr, ActorRef, DerivedActorRef, Message, MessagingErr, SupervisionEvent};
 
 // ------------------------------------------------------------------------------------------
 // programs
@@ -37,16 +43,38 @@ use ractor::{Actor, ActorCell, ActorProcessingErr, ActorRef, Message, MessagingE
 
 #[derive(Clone, Debug, PartialEq)]
 enum Op {
-    Send { nested: Vec<Op>, box_fails: bool, resend: bool },
+    Send { nested: Vec<Op>, box_fails: bool, resend: bool, via: Via },
     Drain,
     Bad,
+    /// `cell.stop(reason)`; the reason string is `r<n>`
+    Stop(Option<u64>),
+    /// `cell.kill()`
+    Kill,
+}
+
+/// Which API a send goes through.
+#[derive(Clone, Copy, Debug, PartialEq)]
+enum Via {
+    /// `ActorRef::<Msg>::send_message`
+    Typed,
+    /// `ActorCell::send_serialized` (cluster build)
+    Serialized,
+    /// `send_serialized` with a payload the actor's `Msg::deserialize` rejects (`zb`)
+    SerializedBad,
+    /// `DerivedActorRef::<DMsg>::send_message`
+    Derived,
 }
 
 fn show_ops(ops: &[Op]) -> String {
     ops.iter()
         .map(|o| match o {
-            Op::Send { nested, box_fails, resend } => {
-                let mut s = String::from(if *box_fails { "sf" } else { "s" });
+            Op::Send { via: Via::Serialized, .. } => "z".into(),
+            Op::Send { via: Via::SerializedBad, .. } => "zb".into(),
+            Op::Send { nested, box_fails, resend, via } => {
+                let mut s = String::from(if *via == Via::Derived { "v" } else { "s" });
+                if *box_fails {
+                    s.push('f');
+                }
                 if *resend {
                     s.push('!');
                 }
@@ -59,6 +87,9 @@ fn show_ops(ops: &[Op]) -> String {
             }
             Op::Drain => "d".into(),
             Op::Bad => "b".into(),
+            Op::Stop(None) => "t".into(),
+            Op::Stop(Some(n)) => format!("t{n}"),
+            Op::Kill => "k".into(),
         })
         .collect::<Vec<_>>()
         .join(",")
@@ -75,7 +106,8 @@ fn parse_ops(s: &[u8], i: &mut usize) -> Vec<Op> {
             break;
         }
         match s[*i] {
-            b's' => {
+            c @ (b's' | b'v') => {
+                let via = if c == b'v' { Via::Derived } else { Via::Typed };
                 *i += 1;
                 let mut bf = false;
                 if *i < s.len() && s[*i] == b'f' {
@@ -94,7 +126,29 @@ fn parse_ops(s: &[u8], i: &mut usize) -> Vec<Op> {
                     assert!(*i < s.len() && s[*i] == b']', "unbalanced program");
                     *i += 1;
                 }
-                out.push(Op::Send { nested, box_fails: bf, resend });
+                out.push(Op::Send { nested, box_fails: bf, resend, via });
+            }
+            b'z' => {
+                *i += 1;
+                let mut via = Via::Serialized;
+                if *i < s.len() && s[*i] == b'b' {
+                    via = Via::SerializedBad;
+                    *i += 1;
+                }
+                out.push(Op::Send { nested: Vec::new(), box_fails: false, resend: false, via });
+            }
+            b'k' => {
+                *i += 1;
+                out.push(Op::Kill);
+            }
+            b't' => {
+                *i += 1;
+                let st = *i;
+                while *i < s.len() && s[*i].is_ascii_digit() {
+                    *i += 1;
+                }
+                let n = if *i > st { Some(std::str::from_utf8(&s[st..*i]).unwrap().parse().unwrap()) } else { None };
+                out.push(Op::Stop(n));
             }
             b'd' => {
                 *i += 1;
@@ -147,6 +201,7 @@ struct Shared {
 
 struct Ctx {
     aref: ActorRef<Msg>,
+    dref: DerivedActorRef<DMsg>,
     cell: ActorCell,
     sh: Arc<Shared>,
 }
@@ -199,8 +254,54 @@ impl Message for Msg {
         }
         Inner(self).box_message(pid)
     }
-    fn from_boxed(m: BoxedMessage) -> Result<Self, BoxedDowncastErr> {
+    fn from_boxed(mut m: BoxedMessage) -> Result<Self, BoxedDowncastErr> {
+        // the serialized variant of `BoxedMessage` (what `send_serialized` enqueues)
+        if let Some(sm) = m.serialized_msg.take() {
+            return match sm {
+                SerializedMessage::Cast { args, .. } if args.len() == 8 => {
+                    let mut b = [0u8; 8];
+                    b.copy_from_slice(&args);
+                    Ok(Msg { id: u64::from_be_bytes(b), nested: Vec::new(), box_fails: false, resend: false })
+                }
+                _ => Err(BoxedDowncastErr),
+            };
+        }
         Inner::from_boxed(m).map(|i| i.0)
+    }
+}
+
+/// The message type of the derived ref: convertible into `Msg` and back.
+struct DMsg(Msg);
+impl From<DMsg> for Msg {
+    fn from(d: DMsg) -> Msg {
+        d.0
+    }
+}
+impl TryFrom<Msg> for DMsg {
+    type Error = ();
+    fn try_from(m: Msg) -> Result<DMsg, ()> {
+        Ok(DMsg(m))
+    }
+}
+
+fn ser(id: u64) -> SerializedMessage {
+    SerializedMessage::Cast { variant: "m".into(), args: id.to_be_bytes().to_vec(), metadata: None }
+}
+/// a payload `Msg::from_boxed` cannot decode (9 bytes instead of 8); the id is still readable for
+/// the harness's own bookkeeping
+fn ser_bad(id: u64) -> SerializedMessage {
+    let mut args = id.to_be_bytes().to_vec();
+    args.push(0xff);
+    SerializedMessage::Cast { variant: "m".into(), args, metadata: None }
+}
+fn ser_id(m: &SerializedMessage) -> Option<u64> {
+    match m {
+        SerializedMessage::Cast { args, .. } if args.len() >= 8 => {
+            let mut b = [0u8; 8];
+            b.copy_from_slice(&args[..8]);
+            Some(u64::from_be_bytes(b))
+        }
+        _ => None,
     }
 }
 
@@ -210,10 +311,33 @@ impl Message for Wrong {}
 fn exec_op(ctx: &Arc<Ctx>, op: &Op) {
     verif::point("op.start");
     match op {
-        Op::Send { nested, box_fails, resend } => {
+        Op::Send { via: via @ (Via::Serialized | Via::SerializedBad), .. } => {
             let id = ctx.sh.next_id.fetch_add(1, Ordering::SeqCst);
             cur_push(id);
-            let r = ctx.aref.send_message(Msg { id, nested: nested.clone(), box_fails: *box_fails, resend: *resend });
+            let r = ctx.cell.send_serialized(if *via == Via::SerializedBad { ser_bad(id) } else { ser(id) });
+            cur_pop();
+            let s = match r.map_err(|b| *b) {
+                Ok(()) => format!("ret send {id} ok"),
+                Err(MessagingErr::SendErr(m)) if ser_id(&m) == Some(id) => format!("ret send {id} sendErr"),
+                Err(MessagingErr::SendErr(m)) => format!("ret send {id} sendErrWrongMessage({:?})", ser_id(&m)),
+                Err(MessagingErr::InvalidActorType) => format!("ret send {id} invalidType"),
+                Err(MessagingErr::ChannelClosed) => format!("ret send {id} channelClosed"),
+            };
+            ctx.sh.rets.lock().unwrap().push(s);
+        }
+        Op::Send { nested, box_fails, resend, via } => {
+            let id = ctx.sh.next_id.fetch_add(1, Ordering::SeqCst);
+            cur_push(id);
+            let m = Msg { id, nested: nested.clone(), box_fails: *box_fails, resend: *resend };
+            let r = if *via == Via::Derived {
+                ctx.dref.send_message(DMsg(m)).map_err(|e| match e {
+                    MessagingErr::SendErr(d) => MessagingErr::SendErr(d.0),
+                    MessagingErr::ChannelClosed => MessagingErr::ChannelClosed,
+                    MessagingErr::InvalidActorType => MessagingErr::InvalidActorType,
+                })
+            } else {
+                ctx.aref.send_message(m)
+            };
             cur_pop();
             let s = match r {
                 Ok(()) => format!("ret send {id} ok"),
@@ -231,6 +355,18 @@ fn exec_op(ctx: &Arc<Ctx>, op: &Op) {
                 Err(e) => format!("ret drain 0 other({e})"),
             };
             ctx.sh.rets.lock().unwrap().push(s);
+        }
+        Op::Stop(r) => {
+            // `send_stop` is one mutex-protected operation: one schedule point in front of it
+            verif::point("port.stop");
+            let ok = ctx.cell.verif_stop(r.map(|n| format!("r{n}")));
+            let s = format!("cret stop {} {}", r.map_or("-".to_string(), |n| n.to_string()), if ok { "ok" } else { "refused" });
+            ctx.sh.rets.lock().unwrap().push(s);
+        }
+        Op::Kill => {
+            verif::point("port.kill");
+            let ok = ctx.cell.verif_kill();
+            ctx.sh.rets.lock().unwrap().push(format!("cret kill - {}", if ok { "ok" } else { "refused" }));
         }
         Op::Bad => {
             verif::point("send.typecheck");
@@ -361,7 +497,7 @@ fn run_case(env: &mut Env, progs: &[Vec<Op>], eager_local: bool, choose: &mut dy
     });
     quiesce(&env.rt);
     let cell = aref.get_cell();
-    let ctx = Arc::new(Ctx { aref: aref.clone(), cell: cell.clone(), sh: shared.clone() });
+    let ctx = Arc::new(Ctx { aref: aref.clone(), dref: aref.get_derived::<DMsg>(), cell: cell.clone(), sh: shared.clone() });
 
     let mut ctls = Vec::new();
     let mut joins = Vec::new();
@@ -445,11 +581,11 @@ fn run_case(env: &mut Env, progs: &[Vec<Op>], eager_local: bool, choose: &mut dy
     macro_rules! do_rx {
         ($what:expr) => {{
             let what: &str = $what;
-            match what {
-                "stop" => cell.stop(None),
-                "kill" => cell.kill(),
-                _ => {}
-            }
+            let acc = match what {
+                "stop" => format!(" acc={}", cell.verif_stop(None) as u8),
+                "kill" => format!(" acc={}", cell.verif_kill() as u8),
+                _ => String::new(),
+            };
             quiesce(&env.rt);
             let h = handled.lock().unwrap();
             let e = events.lock().unwrap();
@@ -470,7 +606,7 @@ fn run_case(env: &mut Env, progs: &[Vec<Op>], eager_local: bool, choose: &mut dy
             let new_self = if ss.len() > self_seen { ss[self_seen..].join(",") } else { "-".to_string() };
             env.st.add("self_sends", (ss.len() - self_seen) as u64);
             self_seen = ss.len();
-            env.log.rec(format!("rx {what}"), format!("handled={new_h} exit={exit} st={} self={new_self}", status(&cell)));
+            env.log.rec(format!("rx {what}"), format!("handled={new_h} exit={exit} st={} self={new_self}{acc}", status(&cell)));
             env.st.bump(&format!("rx_{what}"));
             sig.push(match what {
                 "stop" => 'S',
@@ -626,8 +762,19 @@ fn gen_ops(rng: &mut Rng, depth: u32, max: u64) -> Vec<Op> {
         .map(|_| {
             let k = rng.below(100);
             if k < 62 {
+                // top level: one send in six goes through `send_serialized`, one in six through a derived ref
+                let via = match rng.below(6) {
+                    0 if depth == 0 => Via::Serialized,
+                    1 => Via::Derived,
+                    _ => Via::Typed,
+                };
+                if via == Via::Serialized {
+                    // one serialized payload in four cannot be decoded by the actor
+                    let via = if rng.chance(1, 4) { Via::SerializedBad } else { via };
+                    return Op::Send { nested: Vec::new(), box_fails: false, resend: false, via };
+                }
                 let nested = if depth < 2 && rng.chance(1, 5) { gen_ops(rng, depth + 1, 2) } else { Vec::new() };
-                Op::Send { nested, box_fails: rng.chance(1, 25), resend: rng.chance(1, 8) }
+                Op::Send { nested, box_fails: rng.chance(1, 25), resend: rng.chance(1, 8), via }
             } else if k < 90 {
                 Op::Drain
             } else {
@@ -717,7 +864,11 @@ fn stress_case(env: &mut Env, srt: &tokio::runtime::Runtime, rng: &mut Rng, idx:
     let k = rng.range(2, 4) as usize;
     let m = rng.range(1, 40) as usize;
     let with_drain = rng.chance(3, 4);
-    let with_stop = rng.chance(1, 8);
+    // round 4: one case in four races stoppers with distinct reasons (and sometimes a killer) with the
+    // senders and the drainer; every caller's result is recorded
+    let stoppers: u64 = if rng.chance(1, 4) { rng.range(1, 3) } else { 0 };
+    let with_kill = stoppers > 0 && rng.chance(1, 3);
+    let with_stop = stoppers > 0 || with_kill;
     let resend_every = rng.range(0, 6);
     let delay = rng.range(0, 30) * rng.range(0, 1500);
     let handled = Arc::new(Mutex::new(Vec::new()));
@@ -739,7 +890,8 @@ fn stress_case(env: &mut Env, srt: &tokio::runtime::Runtime, rng: &mut Rng, idx:
     let cell = aref.get_cell();
     let recs: Arc<Mutex<Vec<(u64, String, u64, u64)>>> = Arc::new(Mutex::new(Vec::new()));
     let mut joins = Vec::new();
-    let start = Arc::new(std::sync::Barrier::new(k + usize::from(with_drain) + usize::from(with_stop)));
+    let start = Arc::new(std::sync::Barrier::new(k + usize::from(with_drain) + stoppers as usize + usize::from(with_kill)));
+    let calls: Arc<Mutex<Vec<String>>> = Arc::new(Mutex::new(Vec::new()));
     for _ in 0..k {
         let aref = aref.clone();
         let sh = shared.clone();
@@ -783,15 +935,32 @@ fn stress_case(env: &mut Env, srt: &tokio::runtime::Runtime, rng: &mut Rng, idx:
             *dr.lock().unwrap() = Some((t0, t1));
         }));
     }
-    if with_stop {
+    for n in 1..=stoppers {
         let cell = cell.clone();
         let start = start.clone();
+        let calls = calls.clone();
+        let spin = delay * rng.range(0, 4);
         joins.push(std::thread::spawn(move || {
             start.wait();
-            for _ in 0..(delay * 3) {
+            for _ in 0..spin {
                 std::hint::spin_loop();
             }
-            cell.stop(None);
+            let ok = cell.verif_stop(Some(format!("r{n}")));
+            calls.lock().unwrap().push(format!("stop:{n}:{}", if ok { "ok" } else { "refused" }));
+        }));
+    }
+    if with_kill {
+        let cell = cell.clone();
+        let start = start.clone();
+        let calls = calls.clone();
+        let spin = delay * rng.range(0, 4);
+        joins.push(std::thread::spawn(move || {
+            start.wait();
+            for _ in 0..spin {
+                std::hint::spin_loop();
+            }
+            let ok = cell.verif_kill();
+            calls.lock().unwrap().push(format!("kill:-:{}", if ok { "ok" } else { "refused" }));
         }));
     }
     for j in joins {
@@ -817,7 +986,19 @@ fn stress_case(env: &mut Env, srt: &tokio::runtime::Runtime, rng: &mut Rng, idx:
             false
         }
     });
-    srt.block_on(async { tokio::time::sleep(Duration::from_millis(2)).await });
+    srt.block_on(async {
+        tokio::time::sleep(Duration::from_millis(2)).await;
+        // the join handle completes before the supervisor has WORKED OFF the terminal event it was sent:
+        // wait (bounded) until it shows up instead of trusting the 2 ms above on a loaded machine
+        if exited {
+            for _ in 0..3000 {
+                if events.lock().unwrap().iter().any(|e: &String| e.starts_with("Terminated") || e.starts_with("Failed")) {
+                    break;
+                }
+                tokio::time::sleep(Duration::from_millis(1)).await;
+            }
+        }
+    });
     let mut all = recs.lock().unwrap().clone();
     all.extend(shared.self_recs.lock().unwrap().iter().cloned());
     all.sort_by_key(|r| r.0);
@@ -827,8 +1008,12 @@ fn stress_case(env: &mut Env, srt: &tokio::runtime::Runtime, rng: &mut Rng, idx:
         all.iter().map(|(id, r, t0, t1)| format!("{id}:{r}:{t0}:{t1}")).collect::<Vec<_>>().join(",")
     };
     let drain = drain_rec.lock().unwrap().map_or("-".to_string(), |(a, b)| format!("{a}:{b}"));
+    let calls_s = {
+        let c = calls.lock().unwrap();
+        if c.is_empty() { "-".to_string() } else { c.join(",") }
+    };
     let obs = format!(
-        "sends={sends} handled={} drain={drain} sup={} exited={}",
+        "sends={sends} handled={} drain={drain} sup={} exited={} calls={calls_s}",
         show_ids(&handled.lock().unwrap()),
         events.lock().unwrap().join(","),
         exited as u8
@@ -843,11 +1028,53 @@ fn stress_case(env: &mut Env, srt: &tokio::runtime::Runtime, rng: &mut Rng, idx:
 }
 
 fn s(nested: Vec<Op>) -> Op {
-    Op::Send { nested, box_fails: false, resend: false }
+    Op::Send { nested, box_fails: false, resend: false, via: Via::Typed }
+}
+fn sv(via: Via) -> Op {
+    Op::Send { nested: Vec::new(), box_fails: false, resend: false, via }
+}
+
+/// Round 4: N stoppers with distinct reasons, killers, drainers and senders (typed / serialized /
+/// derived) on ONE actor, at most one op of each kind per thread position; more than two closer
+/// threads most of the time.
+fn gen_ports_progs(rng: &mut Rng) -> Vec<Vec<Op>> {
+    let mut progs: Vec<Vec<Op>> = Vec::new();
+    let stoppers = rng.range(1, 3);
+    for n in 1..=stoppers {
+        let mut p = Vec::new();
+        if rng.chance(1, 4) {
+            p.push(sv(Via::Typed));
+        }
+        p.push(Op::Stop(if rng.chance(1, 8) { None } else { Some(n) }));
+        if rng.chance(1, 5) {
+            p.push(if rng.chance(1, 2) { Op::Kill } else { Op::Stop(Some(n + 10)) });
+        }
+        progs.push(p);
+    }
+    for _ in 0..rng.range(0, 2) {
+        progs.push(vec![Op::Kill]);
+    }
+    for _ in 0..rng.range(0, 2) {
+        let mut p = vec![Op::Drain];
+        if rng.chance(1, 4) {
+            p.push(Op::Stop(Some(20)));
+        }
+        progs.push(p);
+    }
+    for _ in 0..rng.range(1, 2) {
+        let n = rng.range(1, 2);
+        progs.push((0..n).map(|_| sv(match rng.below(7) { 0 | 1 => Via::Serialized, 2 | 3 => Via::Derived, 4 => Via::SerializedBad, _ => Via::Typed })).collect());
+    }
+    // shuffle the thread order (thread ids are part of the schedule)
+    for i in (1..progs.len()).rev() {
+        let j = rng.below(i as u64 + 1) as usize;
+        progs.swap(i, j);
+    }
+    progs
 }
 /// a send whose handling makes the actor send to itself
 fn sr() -> Op {
-    Op::Send { nested: Vec::new(), box_fails: false, resend: true }
+    Op::Send { nested: Vec::new(), box_fails: false, resend: true, via: Via::Typed }
 }
 
 fn main() {
@@ -866,7 +1093,9 @@ fn main() {
             replay_file(&mut env, f);
         }
     }
-    if args.u64("only-replay", 0) == 0 {
+    // `--stress-only 1`: only the free-running cases (used for the async-std backend, package hcoreas)
+    let stress_only = args.u64("stress-only", 0) != 0;
+    if args.u64("only-replay", 0) == 0 && !stress_only {
         // fixed cases first: the shape of `drain_defers_marker_for_reentrant_admitted_send`
         // and a sender overtaken by the drain between its status check and its admission
         let fixed: Vec<Vec<Vec<Op>>> = vec![
@@ -874,6 +1103,10 @@ fn main() {
             vec![vec![s(vec![]), Op::Bad, s(vec![])], vec![Op::Drain]],
             vec![vec![s(vec![s(vec![]), Op::Drain])], vec![s(vec![])]],
             vec![vec![sr(), sr()], vec![Op::Drain]],
+            // round 4: serialized / derived sends overtaken by a drain; stoppers, a killer and a drainer on one actor
+            vec![vec![sv(Via::Serialized), sv(Via::Derived)], vec![Op::Drain]],
+            vec![vec![sv(Via::Typed), sv(Via::SerializedBad), sv(Via::Serialized)], vec![sv(Via::SerializedBad), Op::Drain]],
+            vec![vec![Op::Stop(Some(1))], vec![Op::Stop(Some(2))], vec![Op::Kill], vec![Op::Drain], vec![sv(Via::Serialized)]],
         ];
         for p in &fixed {
             random_case(&mut env, &mut rng, p, false);
@@ -889,6 +1122,12 @@ fn main() {
                 ("1s_1d_rxexit", vec![vec![s(vec![])], vec![Op::Drain]], true, 0),
                 // the actor sends to itself while a drain races: the receiver runs at any two positions
                 ("selfsend_1d_rxrun", vec![vec![sr()], vec![Op::Drain]], false, 2),
+                // round 4: the one-shot ports; the receiver runs at any one position
+                ("2t_1k_rxrun", vec![vec![Op::Stop(Some(1))], vec![Op::Stop(Some(2))], vec![Op::Kill]], false, 1),
+                ("2t_1s_rxrun", vec![vec![Op::Stop(Some(1)), Op::Stop(Some(2))], vec![s(vec![])]], false, 1),
+                ("1t_1k_1d_rxrun", vec![vec![Op::Stop(Some(1))], vec![Op::Kill], vec![Op::Drain]], false, 1),
+                ("1z_1d", vec![vec![sv(Via::Serialized)], vec![Op::Drain]], false, 0),
+                ("1v_1d_rxexit", vec![vec![sv(Via::Derived)], vec![Op::Drain]], true, 0),
             ];
             for (name, p, rx, runs) in &cfgs {
                 enumerate(&mut env, name, p, *rx, *runs, enum_cap);
@@ -900,6 +1139,13 @@ fn main() {
                 let p = p.clone();
                 random_case(&mut env, &mut rng, &p, true);
             }
+        }
+        // round 4: stop / kill / drain mixed on the same actor from more than two threads
+        for _ in 0..cases / 3 {
+            let progs = gen_ports_progs(&mut rng);
+            let eager = rng.chance(1, 2);
+            random_case(&mut env, &mut rng, &progs, eager);
+            env.st.bump("ports_cases");
         }
         for _ in 0..cases {
             let k = rng.range(1, 4);
